@@ -32,6 +32,8 @@ def impl_predicates(pid, lines, iobs):
                 out.append(dict(kind="pred-edge-changed", line=i, edge=t[1],
                                 defined_at=names[t[1]][1], before=",".join(names[t[1]][0]),
                                 after=",".join(tb)))
+        elif t[0] in ("applyinto", "constinto") and ob and not ob.startswith("ERR"):
+            names.pop(t[1], None)      # accepted: the edge legitimately holds a new function
         elif t[0] in ("release",):
             names.pop(t[1], None)
         elif t[0] == "reorder":
@@ -249,7 +251,7 @@ PROPS["C19"] = dict(
                "EV+/EV* edge values are covered through C03-style scripts only.")
 
 PROPS["C18"] = dict(
-    gens=[("mmhist", gen.gen_C18, 1.0)], quick=40, thorough=600,
+    gens=[("mmhist", gen.gen_C18, 0.8), ("growing-maximum", gen.gen_C18_growing, 0.6)], quick=40, thorough=600,
     rule="random request/recycle histories (5 styles x 2 granularities x 5 recycle orders); every live chunk is "
          "filled with a per-chunk sentinel re-checked after every few calls; distinct_nontrivial = distinct "
          "(style, address, size) responses with a non-null address",
